@@ -148,7 +148,8 @@ pub broadcast proof fn lemma_be_i32_subrange(s: Seq<u8>, a: int, b: int, o: int)
 {
 	reveal(be_u8); reveal(be_i8); reveal(be_u16); reveal(be_i16); reveal(be_u32); reveal(be_i32);
 }
-pub broadcast group group_skip { lemma_skip_len, lemma_skip_index, lemma_skip_subrange, lemma_be_u8_is_byte, lemma_be_i8_is_byte, lemma_be_u8_skip, lemma_be_i8_skip, lemma_be_u16_skip, lemma_be_i16_skip, lemma_be_u32_skip, lemma_be_i32_skip, lemma_be_u8_subrange, lemma_be_i8_subrange, lemma_be_u16_subrange, lemma_be_i16_subrange, lemma_be_u32_subrange, lemma_be_i32_subrange }
+pub broadcast group group_bytes { lemma_be_u8_is_byte, lemma_be_i8_is_byte }
+pub broadcast group group_skip { lemma_skip_len, lemma_skip_index, lemma_skip_subrange, lemma_be_u8_skip, lemma_be_i8_skip, lemma_be_u16_skip, lemma_be_i16_skip, lemma_be_u32_skip, lemma_be_i32_skip, lemma_be_u8_subrange, lemma_be_i8_subrange, lemma_be_u16_subrange, lemma_be_i16_subrange, lemma_be_u32_subrange, lemma_be_i32_subrange }
 
 // byteorder::ReadBytesExt / std::io::Read on `&[u8]`
 pub trait ReadBytesExt: Sized {
